@@ -44,7 +44,12 @@ func (r *Response) Result() (any, error) {
 }
 
 func (r *Response) Send(_ *PID, msg any, _ *PID) {
-	r.result <- msg
+	// Result() takes one reply. A responder that replies more than once must
+	// not be blocked on the full channel (nobody would ever drain it).
+	select {
+	case r.result <- msg:
+	default:
+	}
 }
 
 func (r *Response) PID() *PID         { return r.pid }
